@@ -67,11 +67,15 @@ struct TagInfo {
   uint64_t start_last_load_step; // executing thread's last atomic load before the body started
   int64_t aux;
 };
+// (RACE mode, C10: tagNew declares a write of the task's input by the submitter, tagStart a read of
+// it by the executing thread, tagFinish a write of the task's output and tagObserve a read of it by
+// whoever relies on the task being finished: after wait(), get(), join or a destructor.)
 int tagNew(int api, int64_t aux = 0);
 int tagCount();
 TagInfo& tag(int id);
 void tagStart(int id);   // records start (tid, step, last-load step)
 void tagFinish(int id);
+void tagObserve(int id); // the caller relies on the effects of a finished body being visible
 void tagsReset();
 
 // nesting depth of harness bodies on the current thread (C46)
@@ -97,14 +101,27 @@ struct SimLatch {
   int count;
   explicit SimLatch(int c = 1) : count(c) {}
   void countDown() {
+    sim_race_release(this); // a latch orders what precedes countDown() before what follows wait()
     if (--count <= 0)
       sim_event_wake_all(this);
   }
   void wait() {
     while (count > 0)
       sim_event_wait(this);
+    sim_race_acquire(this);
   }
 };
+
+// ---- declared accesses for the data-race check (C10) ------------------------------------------------
+// Harness payload objects tell the race detector when they are written and read; the library has to
+// provide the happens-before between a write and a conflicting access on another thread wherever its
+// contract says the hand-off is safe.  One byte at the object's address stands for the object.
+inline void raceW(const void* p, const char* label = "payload") {
+  sim_race_access(p, 1, 1, label);
+}
+inline void raceR(const void* p, const char* label = "payload") {
+  sim_race_access(p, 1, 0, label);
+}
 
 // Objects that must outlive the workload function (detached work may still touch them) are
 // allocated here and stay reachable from a global list, so a leak checker does not blame them.
